@@ -157,6 +157,12 @@ type c13Input struct {
 // c13Run executes the case on the real VM (twice on fresh VMs, once after Reset() on a used VM) and records it.
 func c13Run(co *caseOut, kind, tag string, in c13Input) {
 	script := unhx(in.Script)
+	orig := append([]byte(nil), script...)
+	defer func() { // every run below uses the very same slice: a run that writes into it changes what the next one executes
+		if string(orig) != string(script) {
+			co.violation(kind, "the script bytes were modified by executing the script (a result shares storage with a PUSHDATA constant)", in, hx(script))
+		}
+	}()
 	r1 := c13Exec(script, in.Base, in.Limit)
 	r2 := c13Exec(script, in.Base, in.Limit)
 	if r1.Panic != "" {
@@ -272,6 +278,10 @@ func runC13(args []string) error {
 		}
 	}
 
+	// 0d. aliasing between results and operands
+	for _, c := range c13AliasCases() {
+		c13Run(co, "alias", c.tag, c13Input{Script: hx(c.a.b), Base: 1, Limit: 100000})
+	}
 	// 0c. slot initialisation more than once (pairs, triples; one context, across CALL; two scripts on one VM)
 	c13SlotCases(co, r, 8*per)
 	c13LoadCases(co)
